@@ -45,6 +45,9 @@ class SimParam(object):
 
     def __init__(self, dt, timefor, M, DAY, days):
         self.dt = dt
+        if 3600 % dt != 0:
+            raise Exception("{}. CURRENTLY AT {}.".format(
+                self.TIMESTEP_CONFLICT_MSG, dt))
         self.timeForcing = timefor
         self.month = int(M)
         self.day = DAY
